@@ -172,7 +172,11 @@ class Scheduler:
         if self.cluster.check_ingest_capacity(pipeline_demand, max_ingest):
             if self.provision_ingest + pipeline_demand <= max_ingest:
                 cluster_capacity = True
-                self.provision_ingest += pipeline_demand
+                if buffer_capacity:
+                    # Only reserve machines for an observation that will
+                    # actually start; the reservation is released when its
+                    # ingest ends.
+                    self.provision_ingest += pipeline_demand
                 LOGGER.debug(
                     "Cluster is able to process ingest for observation %s",
                     observation.name)
